@@ -30,7 +30,12 @@ func tickMain() {
 	nkeys := flag.Int("keys", 2000, "population size")
 	period := flag.Int("period", 60, "documented period in seconds")
 	afterClose := flag.Bool("afterclose", true, "also wait one period after Close")
+	backlog := flag.Int("backlog", 0, "instead of the real-time observation: this many expired keys, then ONE reclamation step as the ticker issues it")
 	flag.Parse()
+	if *backlog > 0 {
+		backlogMain(*backlog)
+		return
+	}
 	out = bufio.NewWriterSize(os.Stdout, 1<<16)
 	defer out.Flush()
 	rnd := rand.New(rand.NewSource(*seed))
@@ -198,4 +203,76 @@ func tickMain() {
 		seq++
 		fmt.Fprintf(out, "TICK %d %d | after close | closeErr=%v plantedStillThere=%d err=%v TK=%s\n", seq, nowMs(), cerr, n, err, b01(cerr == nil && err == nil && n == 1))
 	}
+}
+
+
+// backlogMain: a database holding a large backlog of expired keys (with elements) next to live ones; one
+// `DeleteExpired(0)` — the call the background manager makes on every tick — must remove every expired key
+// with all its elements, report no error, and leave the live keys alone. No clock is involved.
+func backlogMain(n int) {
+	out = bufio.NewWriterSize(os.Stdout, 1<<16)
+	defer out.Flush()
+	db := openDB()
+	defer db.Close()
+	fmt.Fprintf(out, "# trace 0 backlog keys=%d\n", n)
+	const nLive = 53
+	err := db.Update(func(tx *redka.Tx) error {
+		for i := 0; i < n; i++ {
+			k := fmt.Sprintf("x%06d", i)
+			switch i % 4 {
+			case 0:
+				if _, err := tx.Set().Add(k, "a", "b"); err != nil {
+					return err
+				}
+			case 1:
+				if _, err := tx.Hash().Set(k, "f", "v"); err != nil {
+					return err
+				}
+			default:
+				if err := tx.Str().Set(k, "v"); err != nil {
+					return err
+				}
+			}
+			if err := tx.Key().Expire(k, time.Millisecond); err != nil {
+				return err
+			}
+		}
+		for i := 0; i < nLive; i++ {
+			k := fmt.Sprintf("live%03d", i)
+			if _, err := tx.List().PushBack(k, "e"); err != nil {
+				return err
+			}
+			if i%2 == 0 {
+				if err := tx.Key().Expire(k, 2*time.Hour); err != nil {
+					return err
+				}
+			}
+		}
+		return nil
+	})
+	if err != nil {
+		fmt.Fprintln(os.Stderr, "backlog: population:", err)
+		os.Exit(2)
+	}
+	time.Sleep(20 * time.Millisecond)
+	count := func(q string, args ...any) int {
+		var c int
+		if err := db.RW.QueryRow(q, args...).Scan(&c); err != nil {
+			return -1
+		}
+		return c
+	}
+	before := count("select count(*) from rkey where etime is not null and etime <= ?", time.Now().UnixMilli())
+	removed, derr := db.Key().DeleteExpired(0)
+	after := count("select count(*) from rkey where etime is not null and etime <= ?", time.Now().UnixMilli())
+	orphans := 0
+	for _, t := range []string{"rstring", "rlist", "rset", "rhash", "rzset"} {
+		orphans += count("select count(*) from " + t + " where kid not in (select id from rkey)")
+	}
+	liveLeft := count("select count(*) from rkey where key like 'live%'")
+	liveElems := count("select count(*) from rlist where kid in (select id from rkey where key like 'live%')")
+	okv := derr == nil && before == n && removed == n && after == 0 && orphans == 0 && liveLeft == nLive && liveElems == nLive
+	seq++
+	fmt.Fprintf(out, "TICK %d %d | backlog | keys=%d expiredBefore=%d removed=%d err=%v expiredAfter=%d orphanChildren=%d liveKeys=%d liveElems=%d TK=%s\n",
+		seq, nowMs(), n, before, removed, derr, after, orphans, liveLeft, liveElems, b01(okv))
 }
